@@ -16,6 +16,7 @@ def _tmpdir():
     os.makedirs(d, exist_ok=True)
     return d
 
+_LOAD = [0]         # batches that ran out of time although the case they stopped at terminates on its own (loaded machine)
 _SLOW = [0]         # cases that ran out of time and that the caller classifies as slow by design (not counted towards MAX_TIMEOUTS)
 _TIMEOUTS = [0]     # timeouts seen in this process: after the first one the budget per batch shrinks (a change that makes the code hang on a class of
                     # inputs must not make the check run for hours: every hanging case is reported, each costs seconds)
@@ -26,8 +27,11 @@ def _budget(nlines, timeout):
     if _TIMEOUTS[0] + _SLOW[0] == 0: return min(timeout, 60 + 0.2 * nlines)      # generous: a loaded machine must not produce a first timeout
     return min(timeout, 10 + 0.05 * nlines)
 
-def _run_file(exe, lines, timeout, exempt=None):
-    timeout = _budget(len(lines), timeout)
+CONFIRM_S = 40      # a case that ran out of time inside a batch is run again on its own: only if it does not finish within this many seconds
+                    # it counts as a case that does not terminate (otherwise the batch was slow — a loaded machine — and is resumed)
+
+def _run_file(exe, lines, timeout, exempt=None, fixed=None):
+    timeout = fixed if fixed is not None else _budget(len(lines), timeout)
     fd, path = tempfile.mkstemp(suffix=".cases", dir=_tmpdir())
     with os.fdopen(fd, "w") as f:
         f.write("\n".join(lines) + "\n")
@@ -41,11 +45,7 @@ def _run_file(exe, lines, timeout, exempt=None):
         out = (e.stdout or b"").decode("latin-1").split("\n")
         if out and out[-1] == "": out.pop()
         k = len(out)
-        if exempt is not None and k < len(lines) and exempt(lines[k]):
-            _SLOW[0] += 1
-            return out, -9, "SLOW-BY-DESIGN after %ss" % timeout
-        _TIMEOUTS[0] += 1
-        return out, -9, "TIMEOUT after %ss: the case did not terminate" % timeout
+        return out, -9, "RAN-OUT-OF-TIME after %ss" % timeout
     finally:
         os.remove(path)
 
@@ -61,6 +61,25 @@ def run_impl(exe, lines, timeout=600, exempt=None):
             # enough cases that do not terminate have been found: the remaining ones are not run
             res.extend([("CRASH", -9, "TIMEOUT after 0s: not run, %d earlier cases did not terminate" % _TIMEOUTS[0])] * (n - i)); break
         out, rc, err = _run_file(exe, lines[i:], timeout, exempt)
+        if rc == -9 and err.startswith("RAN-OUT-OF-TIME") and len(out) < n - i:
+            # which case?  run the one the batch stopped at on its own
+            k = i + len(out)
+            o1, rc1, err1 = _run_file(exe, [lines[k]], timeout, exempt, fixed=CONFIRM_S)
+            if not (rc1 == -9 and err1.startswith("RAN-OUT-OF-TIME")):
+                # it terminates: the batch was merely slow.  Keep what was answered, take this case's own result, go on behind it with the full time
+                res.extend(out)
+                if rc1 == 0 and len(o1) == 1: res.append(o1[0])
+                else: res.append(("CRASH", rc1, err1[-6000:]))
+                i = k + 1
+                _LOAD[0] += 1
+                if _LOAD[0] <= 50: continue
+                err = "TIMEOUT after %s: batches keep running out of time although single cases terminate" % err[len("RAN-OUT-OF-TIME after "):]
+            elif exempt is not None and exempt(lines[k]):
+                _SLOW[0] += 1
+                err = "SLOW-BY-DESIGN after %ss" % CONFIRM_S
+            else:
+                _TIMEOUTS[0] += 1
+                err = "TIMEOUT after %ss on its own: the case did not terminate" % CONFIRM_S
         if rc == 0 and len(out) == n - i:
             res.extend(out); break
         if len(out) < n - i:
